@@ -8,6 +8,7 @@
    gen_*       = constants regenerated from /repo on every run (coq/Generated/Consts.v). *)
 From Coq Require Import NArith ZArith List Bool.
 Require Import Board Move GameOver Eval EvalSpec EvalInst EvalFacts4 EvalFacts5.
+Require EvalTotal GameOverFacts2.
 Require Import Generated.Consts.
 Import ListNotations.
 
@@ -77,6 +78,21 @@ Theorem C18_all_in_root_window : forall p v, shape_ok p -> (0 <= move p <= max_t
   (Z.abs v <= gen_MaxEval)%Z.
 Proof. exact all_in_root_window. Qed.
 Print Assumptions C18_all_in_root_window.
+
+(* The evaluation EXISTS: on every position of C02's invariant (size 3..8, a well-formed board, no bit outside the board, byte
+   reserves that do not wrap) evaluate returns a value for every weight vector - it cannot panic (scoreGroups' index Groups+w
+   stays inside the weight array because a group is measured wider than the board only when it spans it, and then the game is
+   over) and the loops of bitboard.Dimensions terminate.  Together with the range theorems above: every such position has a score,
+   and the score is on the right side of the threshold. *)
+Theorem C18_evaluate_total : forall w p, GameOverFacts2.inv p -> exists v, evaluate w p = Ok v.
+Proof. exact EvalTotal.evaluate_never_panics. Qed.
+Print Assumptions C18_evaluate_total.
+
+Theorem C18_dimensions_within_board : forall s, (3 <= s <= 8)%N -> forall bits, bits <> 0%N -> N.land bits (cMask (precompute s)) = bits ->
+  (N.land bits (cL (precompute s)) = 0%N \/ N.land bits (cR (precompute s)) = 0%N) ->
+  exists wd ht, dimensions (precompute s) bits = Some (wd, ht) /\ (wd <= N.to_nat s)%nat /\ (ht <= N.to_nat s)%nat.
+Proof. exact EvalTotal.dimensions_ok. Qed.
+Print Assumptions C18_dimensions_within_board.
 
 (* Non-vacuity: a position value satisfying the hypotheses of the unfinished / finished theorems, with its evaluation. *)
 Theorem C18_nonvacuous_unfinished : shape_ok ex_start5 /\ game_over ex_start5 = Some (false, GNone) /\ eval_default ex_start5 = Ok 250%Z.
